@@ -44,9 +44,11 @@ pub fn check_info(si: &SourceInfo, src: &str) -> Result<(), (String, String)> {
             }
             if got_text.as_deref() != Some(trimmed) { return Err(("read_line".into(), format!("line {l}: read_line {got_text:?}, expected {trimmed:?}"))); }
         }
+        let mut newlines_before = 0usize; // number of '\n' among the first idx bytes, maintained incrementally (large texts)
         for idx in 0..=src.len() + 10 {
             let (l, c) = si.get_pos_pair(idx);
-            let exp_l = if idx <= src.len() { src.as_bytes()[..idx].iter().filter(|&&b| b == b'\n').count() } else { nlines - 1 };
+            if idx >= 1 && idx <= src.len() && src.as_bytes()[idx - 1] == b'\n' { newlines_before += 1; }
+            let exp_l = if idx <= src.len() { newlines_before } else { nlines - 1 };
             let exp_c = idx - starts[exp_l];
             if (l, c) != (exp_l, exp_c) {
                 let sig = if idx > src.len() { "pos-past-end" } else { "pos" };
@@ -72,6 +74,16 @@ pub fn run(ctx: &Ctx) -> Report {
         });
         rep.absorb(r);
     }
+    // scale: texts of 255 .. 70000 lines (line counts across 2^8, 2^9, 2^12, 2^16), three line shapes each, every index queried
+    let shapes: [&[&str]; 3] = [&["a\n"], &["\n", "ab \n", "\t\r\n", "é\n"], &[" x;y\r\n", "\n"]];
+    let counts = [255usize, 256, 257, 258, 511, 512, 513, 1000, 4095, 4096, 4097, 65535, 65536, 65537, 70000];
+    let r = sweep(ctx, (counts.len() * 3 * 2) as u64, 1, |i, acc| {
+        let (n, sh, tail) = (counts[(i / 6) as usize], shapes[(i / 2 % 3) as usize], i % 2 == 1);
+        let mut s = String::new(); for k in 0..n { s.push_str(sh[k % sh.len()]); } if tail { s.push_str("last"); }
+        acc.evals += 1; acc.transitions += s.len() as u64; acc.nontrivial += 1; acc.count("large_texts", 1);
+        if let Some((sig, d)) = check(&s) { acc.violation(sig, format!("big:{i}"), d.chars().take(600).collect::<String>()); }
+    });
+    rep.absorb(r);
     super::linksrc::run_for(ctx, &mut rep, "C25");
     rep.bound("max_length", Json::i(maxlen as u64));
     rep.require(rep.acc.outcomes.len() >= 6, "texts with 0..several newlines seen");
@@ -79,6 +91,14 @@ pub fn run(ctx: &Ctx) -> Report {
 }
 pub fn replay(case: &str) -> Option<String> {
     if case.starts_with("ls:") { return super::linksrc::replay_for("C25", case); }
+    if let Some(i) = case.strip_prefix("big:") {
+        let i: usize = i.parse().ok()?;
+        let shapes: [&[&str]; 3] = [&["a\n"], &["\n", "ab \n", "\t\r\n", "é\n"], &[" x;y\r\n", "\n"]];
+        let counts = [255usize, 256, 257, 258, 511, 512, 513, 1000, 4095, 4096, 4097, 65535, 65536, 65537, 70000];
+        let (n, sh, tail) = (*counts.get(i / 6)?, shapes[i / 2 % 3], i % 2 == 1);
+        let mut s = String::new(); for k in 0..n { s.push_str(sh[k % sh.len()]); } if tail { s.push_str("last"); }
+        return check(&s).map(|x| x.1.chars().take(600).collect());
+    }
     let b = unhex(case)?; let s = String::from_utf8(b).ok()?;
     check(&s).map(|x| x.1)
 }
